@@ -85,6 +85,15 @@ def cases(tier, rng, schema, feats):
                         continue
                     for p1 in (3, 7, 8):
                         add("surplus", apdu(0, 2, p1, 0, data, enc))
+    # U2F_VERSION (and the other instructions) with EVERY short Le and a range of extended Le values, with and without data: the
+    # answer does not depend on the expected response length
+    for ins in (3, 1, 2, 0x10):
+        for le in range(256):
+            add("le", bytes([0, ins, 0, 0, le]))                                 # case 2S
+            add("le", bytes([0, ins, 0, 0, 2, 0xAA, 0xBB, le]))                  # case 4S
+        for le in (0, 1, 2, 5, 6, 7, 255, 256, 257, 65535):
+            add("le", bytes([0, ins, 0, 0, 0]) + le.to_bytes(2, "big"))          # case 2E
+            add("le", bytes([0, ins, 0, 0, 0, 0, 2, 0xAA, 0xBB]) + le.to_bytes(2, "big"))   # case 4E
     # malformed framings
     for k in range(0, 12):
         add("frame", rng.bytes(k))
